@@ -196,6 +196,8 @@ def run(res):
     shards = 2 if quick else 16
     js = pmap(lambda i: inproc.check(res, "rdh", ["--seed", res.seed * 100 + i, "--bases", 40 if quick else 150, "--walks", 200 if quick else 1500,
                                                    "--walk-len", 300 if quick else 2000], "rdh-inproc", "RDH validators in-process"), range(shards))
+    # scale: a few very long walks on one link (every per-link counter / index beyond 65 536 RDHs), bit sweeps skipped
+    js.append(inproc.check(res, "rdh", ["--seed", res.seed * 100 + 77, "--bases", 1, "--walks", 2 if quick else 12, "--walk-len", 70000], "rdh-inproc", "RDH validators in-process (long walks)"))
     for j in js:
         if j:
             res.evaluations += j["verdicts"]
